@@ -131,7 +131,40 @@ func repoDir() string {
 func transcriptFiles() []string {
 	fs, _ := filepath.Glob(filepath.Join(repoDir(), "pkg/eval/*_test.elvts"))
 	sort.Strings(fs)
-	return fs
+	// the examples of the reference itself and of the builtin docs
+	docs, _ := filepath.Glob(filepath.Join(repoDir(), "pkg/eval/*.d.elv"))
+	sort.Strings(docs)
+	fs = append(fs, filepath.Join(repoDir(), "website/ref/language.md"))
+	return append(fs, docs...)
+}
+
+// docSections turns the ```elvish-transcript blocks of a Markdown file or of
+// a .d.elv file (where the Markdown is in comments) into transcript text with
+// one section per block.
+func docSections(text string, commented bool) string {
+	var out []string
+	in := false
+	for _, line := range strings.Split(text, "\n") {
+		if commented {
+			if !strings.HasPrefix(line, "#") {
+				in = false
+				continue
+			}
+			line = strings.TrimPrefix(strings.TrimPrefix(line, "#"), " ")
+		}
+		t := strings.TrimSpace(line)
+		switch {
+		case strings.HasPrefix(t, "```elvish-transcript"):
+			in = true
+			out = append(out, "# block")
+		case strings.HasPrefix(t, "```"):
+			in = false
+		case in:
+			// blocks nested in list items are indented
+			out = append(out, strings.TrimPrefix(strings.TrimPrefix(line, "    "), "    "))
+		}
+	}
+	return strings.Join(out, "\n")
 }
 
 // sections extracts the code of every "~> code" entry, grouped per section.
@@ -178,7 +211,14 @@ func runTranscripts(c *mon.Case) {
 		c.Inconclusive("transcript-unreadable")
 		return
 	}
-	for _, sec := range sections(string(b)) {
+	text := string(b)
+	switch {
+	case strings.HasSuffix(files[c.I], ".md"):
+		text = docSections(text, false)
+	case strings.HasSuffix(files[c.I], ".d.elv"):
+		text = docSections(text, true)
+	}
+	for _, sec := range sections(text) {
 		for k := range sec {
 			src := strings.Join(sec[:k+1], "\n")
 			p, err := refinterp.FromSource(src)
@@ -231,8 +271,18 @@ func Spec() *mon.Spec {
 		Phases: []mon.Phase{
 			{Name: "wellTyped", Quick: 16000, Thorough: 240000, Run: runGenerated(false, "wellTyped")},
 			{Name: "illTyped", Quick: 6000, Thorough: 80000, Run: runGenerated(true, "illTyped")},
-			{Name: "transcripts", Quick: 25, Thorough: 25, Run: runTranscripts, Batch: 2},
+			{Name: "transcripts", Quick: 45, Thorough: 45, Run: runTranscripts, Batch: 3},
 		},
-		Floors: map[string]int{},
+		Floors: map[string]int{
+			"compared": 6000, "distinct_nontrivial": 5000, "values_compared": 80000, "compared_ending_in_exception": 3000,
+			"transcript_snippets_compared": 100,
+			"p_pipeline": 2500, "p_call": 4000, "p_lambda": 4000, "p_try-caught": 2000, "p_try-caught-flow": 200, "p_try-else": 300,
+			"p_finally-replaces": 60, "p_loop-break": 50, "p_loop-continue": 50, "p_loop-else": 250, "p_each-break": 60,
+			"p_each-continue": 60, "p_return-captured": 30, "p_short-circuit": 1000, "p_rest-arg": 150, "p_option-given": 70,
+			"p_arity-error": 500, "p_unknown-option-error": 400, "p_range-error": 1500, "p_nokey-error": 500, "p_div0-error": 350,
+			"p_compound-product": 500, "p_index-multi": 1200, "p_tmp": 800, "p_with": 1200, "p_defer": 800, "p_rest-lvalue": 800,
+			"p_set-element": 500, "p_exc-capture": 2500, "p_fail-rethrow": 300,
+			"exc_fail": 250, "exc_flow": 200, "exc_arity": 600, "exc_range": 1000, "exc_type": 900, "exc_nokey": 200, "exc_div0": 80, "exc_unknown-option": 100,
+		},
 	}
 }
